@@ -1,9 +1,10 @@
 (* C24 model runner.
-   in : src_hex TAB toks TAB s1 TAB rimpl_hex TAB s2
+   in : src_hex TAB toks TAB s1 TAB rimpl_hex TAB s2 TAB class(0/1)
         toks  = blank-separated  offset:token   (the real scanner's output up to EOF)
-        s1    = result of format.Source(src):            "E" (error) or "O:<tag>"
+        s1    = result of format.Source(src, class):     "E" (error) or "O:<tag>"
         rimpl = bytes returned by the real RearrangeFuncs ("-" = empty, "!" = none/panic)
-        s2    = result of format.Source(rimpl):          "E", "O:<tag>" or "?" (not evaluated)
+        s2    = result of format.Source(rimpl, class):   "E", "O:<tag>" or "?" (not evaluated)
+        the model's Source answers only for the class flag of the line: asked with the other flag it is UNKNOWN
    out: tiling(T/F) TAB rearrange(OK hex|PANIC|OOF) TAB chunks TAB source_ex
         chunks    = NONE | pre_hex;F:hex,N:hex,...      (F = function declaration chunk)
         source_ex = E | O:<tag> | UNKNOWN (Source was asked about a string the harness did not evaluate) *)
@@ -34,7 +35,8 @@ let () =
   try while true do
     let line = input_line stdin in
     (match String.split_on_char '\t' line with
-     | [srch; toks; s1; rimpl; s2] ->
+     | [srch; toks; s1; rimpl; s2; cl] ->
+       let cls = (cl = "1") in
        let src = unhex srch and toks = parse_toks toks in
        let til = tiling src toks in
        let r = rearrange src toks in
@@ -44,11 +46,12 @@ let () =
          | Ok (Some (pre, cs)) ->
            hex pre ^ ";" ^ String.concat "," (List.map (fun (f, c) -> (if f then "F:" else "N:") ^ hex c) cs)
          | Panic -> "PANIC" | OutOfFuel -> "OOF" in
-       let source s =
-         if s = src then res_of s1
+       let source s c =
+         if c <> cls then raise Unknown
+         else if s = src then res_of s1
          else if rimpl <> "!" && s = unhex rimpl then res_of s2
          else raise Unknown in
-       let se = try (match source_ex source src toks with
+       let se = try (match source_ex source src cls toks with
            | Ok None -> "E"
            | Ok (Some t) -> string_of_str t
            | Panic -> "PANIC" | OutOfFuel -> "OOF") with Unknown -> "UNKNOWN" in
